@@ -35,6 +35,8 @@ PROP = {
         "GunYu.Props.C03.stream_roundtrip_partial",
         "GunYu.Props.C03.restore_path",
         "GunYu.Props.C03.expand_path",
+        "GunYu.Props.C03.header_roundtrip",
+        "GunYu.Props.C03.footer_roundtrip",
         "GunYu.Props.C03.ttl_absolute",
         "GunYu.Props.C03.replay_db",
     ],
@@ -83,8 +85,10 @@ PROP = {
         "and PELs -> XGROUP/XCLAIM, IDMP skipping, and the replay of those commands through the oracle; these are covered "
         "by encoder spec + decoder model + correspondence + the keyspace monitor only",
         "full_sync_partial: the per-value theorems (string/container round trips, expand_roundtrip, raw_is_encode, "
-        "chunked_roundtrip, ttl_absolute, replay_db, dump_payload) are not yet composed into one theorem over "
-        "parseRdb(rdbFile f) + fanOut for a whole dataset; the composition is covered by correspondence and the monitor",
+        "chunked_roundtrip, restore_path, expand_path, ttl_absolute, replay_db, dump_payload) and the frame theorems "
+        "(header_roundtrip, footer_roundtrip; the opcodes before a key are covered inside chunked_roundtrip's next_at_key) are not "
+        "yet composed into ONE theorem over parseRdb(rdbFile f) + fanOut for a whole dataset (AUX/SELECTDB/RESIZEDB/slot-info/"
+        "function items between keys, multi-DB target state); that composition is covered by correspondence and the monitor",
         "zset_v1_scores_partial: RDB_TYPE_ZSET (type 3, Redis < 4.0) ASCII scores are modelled for integers below 2^53, inf, nan",
         "zipmap_partial: type 9 (Redis < 2.6) modelled for < 254 items of < 253 bytes",
         "listpack_65535_partial: a listpack whose element count field is 65535 (unknown) is read as a count by the code; "
